@@ -1053,7 +1053,7 @@ class MSeq:
             ln = Ite(b > a, b - a, 0)
             f = self.f
             ae = iexpr(a)
-            return MSeq(ln, lambda ie: f(ie + ae), mutable=False)
+            return MSeq(ln, lambda ie: f(ie + ae), mutable=self.mutable)
         n = self.n
         if Or(i < -n if isinstance(n, int) else i < -n, i >= n):
             raise IndexError('index out of range')
@@ -1061,6 +1061,8 @@ class MSeq:
         return mk_byte(self.f(iexpr(i)))
 
     def __setitem__(self, i, v):
+        if not self.mutable:
+            raise TypeError("'bytes' object does not support item assignment")
         if not isinstance(i, slice):
             raise Unsupported('MSeq element store')
         if i.step not in (None, 1):
